@@ -1149,6 +1149,237 @@ Proof.
       apply ev_lt_cases in Lt. unfold W, warm_event in Lt. cbn [ev_time ev_prio ev_id] in Lt. lia.
 Qed.
 
+(* ---------------------------------------------------------------------- *)
+(** ** The observation log follows the executed-event log                   *)
+(* what a handler body observes at clock t: its data events up to a failing action *)
+Fixpoint acts_obs (acts : list action) (t : Z) : list obsrec :=
+  match acts with
+  | [] => []
+  | AFail :: _ => []
+  | AObs c v :: r => ObsV c v t :: acts_obs r t
+  | _ :: r => acts_obs r t
+  end.
+
+(* the log entries written while an event executes (chronological) *)
+Definition ev_obs (p : program) (ec : ev * Z) : list obsrec :=
+  match ev_h (fst ec) with
+  | HWarm => [ObsWarm (snd ec)]
+  | HUser h => acts_obs (body p h) (snd ec)
+  end.
+
+Definition not_end (o : obsrec) : bool := match o with ObsEnd _ => false | _ => true end.
+Definition nonend (l : list obsrec) : list obsrec := filter not_end l.
+
+Lemma nonend_app a b : nonend (a ++ b) = nonend a ++ nonend b.
+Proof. apply filter_app. Qed.
+
+Lemma nonend_acts acts t : nonend (rev (acts_obs acts t)) = rev (acts_obs acts t).
+Proof.
+  induction acts as [|a r IH]; [reflexivity|].
+  destruct a; cbn [acts_obs]; auto. cbn [rev]. rewrite nonend_app, IH. reflexivity.
+Qed.
+
+Lemma nonend_ev_obs p ec : nonend (rev (ev_obs p ec)) = rev (ev_obs p ec).
+Proof. unfold ev_obs. destruct (ev_h (fst ec)); [reflexivity|apply nonend_acts]. Qed.
+
+Lemma exec_actions_obs_exact md acts : forall s,
+  obs (fst (exec_actions md s acts)) = rev (acts_obs acts (clock s)) ++ obs s.
+Proof.
+  induction acts as [|a r IH]; intros s; cbn [exec_actions]; [reflexivity|].
+  pose proof (fr_clock _ _ (hs_frame _ _ (exec_action_hstep md s a))) as C.
+  destruct a as [m prio h|k| |c|sid v]; cbn [exec_action fst acts_obs] in *.
+  - rewrite IH, C. f_equal. unfold do_sched. destruct (sched_time s m); reflexivity.
+  - rewrite IH, C. f_equal. unfold do_cancel. destruct (nth_error (created s) k); auto.
+    destruct (ev_mem e (pend s)); reflexivity.
+  - reflexivity.
+  - rewrite IH, C. f_equal. unfold inner_cmd. destruct md; try reflexivity; destruct c; destruct (running s); reflexivity.
+  - rewrite IH. cbn [clock set_obs obs rev]. rewrite <- app_assoc. reflexivity.
+Qed.
+
+Lemma exec_event_obs_exact md p s e :
+  obs (fst (exec_event md p s e)) = rev (ev_obs p (e, clock s)) ++ obs s.
+Proof.
+  unfold exec_event, ev_obs. cbn [fst snd]. destruct (ev_h e); [reflexivity|].
+  rewrite exec_actions_obs_exact. reflexivity.
+Qed.
+
+Lemma take_event_obs_exact p s e r :
+  obs (take_event p s e r) = rev (ev_obs p (e, ev_time e)) ++ obs s.
+Proof.
+  unfold take_event.
+  set (s2 := set_clock (ev_time e) _).
+  pose proof (exec_event_obs_exact InRun p s2 e) as H.
+  destruct (exec_event InRun p s2 e) as [s3 failed]. cbn [fst] in H.
+  assert (E2 : obs s2 = obs s) by (unfold s2; destruct (ev_time e =? clock (set_pend r s)); reflexivity).
+  change (clock s2) with (ev_time e) in H. rewrite E2 in H.
+  destruct failed; [destruct (strat s3)|]; exact H.
+Qed.
+
+Lemma step_event_obs_exact p s e r :
+  obs (step_event p s e r) = rev (ev_obs p (e, ev_time e)) ++ obs s.
+Proof.
+  unfold step_event. set (b := set_clock (ev_time e) _).
+  exact (exec_event_obs_exact InStep p b e).
+Qed.
+
+(* [l]: events executed since the reference point (newest first) *)
+Definition Chron (p : program) (tr0 : list (ev * Z)) (ob0 : list obsrec) (s : sim) : Prop :=
+  exists l, trace s = l ++ tr0
+    /\ nonend (obs s) = flat_map (fun ec => rev (ev_obs p ec)) l ++ ob0.
+
+Lemma Chron_same p tr0 ob0 s t :
+  trace t = trace s -> nonend (obs t) = nonend (obs s) -> Chron p tr0 ob0 s -> Chron p tr0 ob0 t.
+Proof. intros Et Eo [l [A B]]. exists l. rewrite Et, Eo. auto. Qed.
+
+Lemma Chron_took p tr0 ob0 s e r s' :
+  Took s e r s' -> obs s' = rev (ev_obs p (e, ev_time e)) ++ obs s ->
+  Chron p tr0 ob0 s -> Chron p tr0 ob0 s'.
+Proof.
+  intros T Eo [l [A B]]. exists ((e, ev_time e) :: l). rewrite (took_trace _ _ _ _ T), A. split; [reflexivity|].
+  rewrite Eo, nonend_app, nonend_ev_obs, B. cbn [flat_map]. rewrite <- app_assoc. reflexivity.
+Qed.
+
+Lemma runs_chron p tr0 ob0 s evs s' : runs p s evs s' -> Chron p tr0 ob0 s -> Chron p tr0 ob0 s'.
+Proof.
+  induction 1 as [s|s e r evs s' R Hp B H IH]; intros HC; auto.
+  apply IH. eapply Chron_took; eauto using take_event_took, take_event_obs_exact.
+Qed.
+
+Lemma run_loop_chron p tr0 ob0 fuel s : Chron p tr0 ob0 s -> Chron p tr0 ob0 (run_loop fuel p s).
+Proof.
+  intros HC. destruct (run_loop_runs p fuel s) as [evs [s1 [R X]]].
+  pose proof (runs_chron p tr0 ob0 _ _ _ R HC) as C1.
+  destruct X as [_ ->|_ _ ->|_ ->]; auto.
+  eapply Chron_same; [| |exact C1]; unfold stop_at_bound; destruct (bound s1 >=? end_time s1); reflexivity.
+Qed.
+
+Lemma worker_ending_chron p tr0 ob0 s : Chron p tr0 ob0 s -> Chron p tr0 ob0 (worker_ending s).
+Proof.
+  intros HC. unfold worker_ending. destruct (ps s); auto;
+    try (eapply Chron_same; [| |exact HC]; reflexivity).
+Qed.
+
+Lemma worker_run_chron p tr0 ob0 fuel s : Chron p tr0 ob0 s -> Chron p tr0 ob0 (worker_run fuel p s).
+Proof.
+  intros HC. unfold worker_run. destruct (worker s); auto.
+  apply worker_ending_chron.
+  destruct (ps s); auto;
+    (set (a := set_rs RStarted (emit (NStart (clock s)) s));
+     apply Chron_same with (s := run_loop fuel p a); [reflexivity|reflexivity|];
+     apply run_loop_chron; apply Chron_same with (s := s); [reflexivity|reflexivity|exact HC]).
+Qed.
+
+Lemma do_start_chron p tr0 ob0 fuel s b i : Chron p tr0 ob0 s -> Chron p tr0 ob0 (fst (do_start fuel p s b i)).
+Proof.
+  intros HC. unfold do_start. destruct (start_checks s); auto.
+  destruct b as [bz|]; auto. destruct (bz <? clock s); auto.
+  destruct (bz >? end_time s); cbn [fst]; apply worker_run_chron;
+    (eapply Chron_same; [| |exact HC]; ssimpl; destruct (ps s); reflexivity).
+Qed.
+
+Lemma do_step_chron p tr0 ob0 s : Chron p tr0 ob0 s -> Chron p tr0 ob0 (fst (do_step p s)).
+Proof.
+  intros HC. unfold do_step. destruct (step_checks s); auto. cbv zeta. cbn [fst].
+  set (s1 := match ps s with PInit => _ | _ => s end).
+  set (s2 := emit (NStart (clock s1)) (set_rs RStarted s1)).
+  assert (C2 : Chron p tr0 ob0 s2).
+  { eapply Chron_same; [| |exact HC]; unfold s2, s1; destruct (ps s); reflexivity. }
+  set (s3 := match pend s2 with [] => _ | _ => _ end).
+  assert (C3 : Chron p tr0 ob0 s3).
+  { unfold s3. destruct (pend s2) as [|e r] eqn:Hp; auto.
+    destruct (ev_time e >? end_time s2); auto.
+    eapply Chron_took; [apply step_event_took; exact Hp|apply step_event_obs_exact|exact C2]. }
+  eapply Chron_same; [| |exact C3]; reflexivity.
+Qed.
+
+Lemma do_end_repl_chron p tr0 ob0 fuel s : Chron p tr0 ob0 s -> Chron p tr0 ob0 (fst (do_end_repl fuel p s)).
+Proof.
+  intros HC. unfold do_end_repl. destruct (ps s); auto. cbn [fst].
+  set (s2 := set_pend [] _).
+  assert (C2 : Chron p tr0 ob0 s2).
+  { eapply Chron_same; [| |exact HC]; unfold s2; destruct (clock s <? end_time s); reflexivity. }
+  unfold worker_run. destruct (worker s2); auto;
+    try (replace (ps s2) with PEnding by reflexivity; cbv iota; apply worker_ending_chron; auto).
+Qed.
+
+Theorem do_cmd_chron p tr0 ob0 fuel s c :
+  is_init c = false -> Chron p tr0 ob0 s -> Chron p tr0 ob0 (fst (do_cmd fuel p s c)).
+Proof.
+  intros Hc HC. destruct c; cbn [do_cmd fst]; auto; try discriminate.
+  - destruct (rep s); auto. apply do_start_chron; auto.
+  - apply do_step_chron; auto.
+  - destruct (running s); auto.
+  - apply do_start_chron; auto.
+  - apply do_start_chron; auto.
+  - apply do_end_repl_chron; auto.
+Qed.
+
+Theorem run_cmds_chron p tr0 ob0 fuel cs : forall s,
+  forallb (fun c => negb (is_init c)) cs = true ->
+  Chron p tr0 ob0 s -> Chron p tr0 ob0 (fst (run_cmds fuel p s cs)).
+Proof.
+  induction cs as [|c r IH]; intros s Hc HC; cbn [run_cmds]; auto.
+  cbn [forallb] in Hc. apply andb_true_iff in Hc. destruct Hc as [Hc Hr].
+  pose proof (do_cmd_chron p tr0 ob0 fuel s c) as M.
+  destruct (do_cmd fuel p s c) as [s1 res]. cbn [fst] in *.
+  assert (C1 : Chron p tr0 ob0 s1) by (apply M; auto; destruct c; auto; discriminate).
+  specialize (IH s1 Hr C1). destruct (run_cmds fuel p s1 r) as [s2 sn]. exact IH.
+Qed.
+
+(** observations_split_at_warmup.  Setting of after_warmup_iff_time.  The
+    observation log of the replication (END marker aside, newest first) is the
+    concatenation, in execution order, of what each executed event's handler
+    observed; if the warm-up event W was executed it splits the log at the
+    WARMUP marker: after the marker come exactly the observations of the
+    events executed after W -- among those of priority below W's, the ones
+    with time >= warm-up time -- before it those of the events before W
+    (priority below W's: time < warm-up time) and those of construct_model. *)
+Theorem observations_split_at_warmup p fuel s0 r cs :
+  Inv s0 -> running s0 = false ->
+  let s1 := fst (do_init p s0 r) in
+  flag s1 = false ->
+  forallb (fun c => negb (is_init c)) cs = true ->
+  let s' := fst (run_cmds fuel p s1 cs) in
+  let W := warm_event p s0 r in
+  let f := fun ec => rev (ev_obs p ec) in
+  exists l, trace s' = l ++ trace s0
+    /\ nonend (obs s') = flat_map f l ++ nonend (obs s1)
+    /\ forall l2 c l1, l = l2 ++ (W, c) :: l1 ->
+         nonend (obs s') = flat_map f l2 ++ [ObsWarm (r_warm r)] ++ flat_map f l1 ++ nonend (obs s1)
+         /\ (forall e ce, In (e, ce) l2 -> ev_prio e < 10 -> r_warm r <= ev_time e)
+         /\ (forall e ce, In (e, ce) l1 -> ev_prio e < 10 -> ev_time e < r_warm r).
+Proof.
+  intros HI R. cbv zeta. intros Fl Hc.
+  destruct (after_warmup_iff_time p fuel s0 r cs HI R Fl Hc) as [l [E H]].
+  set (s1 := fst (do_init p s0 r)) in *.
+  destruct (do_init_warm_event p s0 r R Fl) as (_ & _ & Tr1). fold s1 in Tr1.
+  assert (C1 : Chron p (trace s0) (nonend (obs s1)) s1).
+  { exists []. rewrite Tr1. split; reflexivity. }
+  destruct (run_cmds_chron p (trace s0) (nonend (obs s1)) fuel cs s1 Hc C1) as [l' [E' B']].
+  rewrite E in E'. apply app_inv_tail in E'. subst l'.
+  exists l. split; [exact E|]. split; [exact B'|].
+  intros l2 c l1 El. destruct (H l2 c l1 El) as [Cw Hiff].
+  split; [|split].
+  - rewrite B', El, flat_map_app. cbn [flat_map]. unfold ev_obs at 2. cbn [fst snd warm_event ev_h rev app].
+    rewrite Cw, <- !app_assoc. reflexivity.
+  - intros e ce H2 Hp. apply (Hiff e ce); auto.
+    + rewrite El. apply in_or_app. left; auto.
+    + (* e = W is impossible: W has priority 10 *) intros ->. cbn [warm_event ev_prio] in Hp. lia.
+  - intros e ce H1 Hp.
+    destruct (Z.lt_ge_cases (ev_time e) (r_warm r)) as [Lt|Ge]; auto. exfalso.
+    assert (Hin : In (e, ce) l) by (rewrite El; apply in_or_app; right; right; auto).
+    assert (Hne : e <> warm_event p s0 r) by (intros ->; cbn [warm_event ev_prio] in Hp; lia).
+    pose proof (proj2 (Hiff e ce Hin Hne Hp) Ge) as H2.
+    (* an executed event occurs once in the log *)
+    pose proof (Inv_exec_nodup _ (run_cmds_inv p fuel cs s1 (do_init_inv p s0 r HI))) as ND.
+    unfold executed in ND. rewrite E, El in ND. rewrite !map_app in ND. unfold ids in ND. rewrite !map_app in ND.
+    apply NoDup_app_l in ND. cbn [map fst] in ND.
+    apply NoDup_remove_1 in ND.
+    eapply (NoDup_app_disj _ _ (ev_id e) ND).
+    + apply in_map. apply (in_map fst _ (e, ce)). exact H2.
+    + apply in_map. apply (in_map fst _ (e, ce)). exact H1.
+Qed.
+
 (** The log of one replication is chronological: the observations of
     construct_model at the start time, then what the commands add. *)
 Theorem replication_log_chronological p fuel s0 r cs :
